@@ -18,6 +18,8 @@ class _R:
 
 
 R = _R(Lcg(1))
+# probability with which the encoder emits extreme / invalid codes (C08 only; 0 = valid syntax only)
+EXTREME = 0.0
 
 
 def seed(lcg):
@@ -32,6 +34,14 @@ class BW:
         for i in range(n-1,-1,-1): s.b.append((v>>i)&1)
     def bit(s,v): s.b.append(1 if v else 0)
     def ue(s,v):
+        if EXTREME and R.random() < EXTREME:
+            k = pick(0, 1, 2, 3)
+            if k == 0:
+                # 64 (or more) leading zeros: beyond what a u64 code can carry
+                z = pick(64, 64, 65, 70, 100)
+                s.b += [0]*z + [1] + [R.randint(0,1) for _ in range(min(z,64))]
+                return
+            v = pick(2**64-2, 2**63-1, 2**63, 2**32-1, 2**32, 2**31, 2**16, 65535, 255, 256, R.randint(0, 2**64-2))
         v+=1; n=v.bit_length(); s.u(n-1,0) if n>1 else None; s.u(n,v)
     def se(s,v):
         s.ue(2*v-1 if v>0 else -2*v)
@@ -77,7 +87,7 @@ def gen_block(level, w, js):
         lv=lambda: pick(0,10000,1000,R.randint(0,10000))
         fl=[f('max_display_mastering_luminance',16,lv()),f('min_display_mastering_luminance',16,lv()),f('max_content_light_level',16,lv()),f('max_frame_average_light_level',16,lv())]; ln=8; bits=64; name='Level6'
     elif level==8:
-        ln=pick(10,12,13,19,25); name='Level8'
+        ln=pick(10,12,13,19,25) if not (EXTREME and R.random()<0.3) else pick(9,11,14,18,20,24,26,0,255); name='Level8'
         fl=[('length',ln)]
         fl+= [f('target_display_index',8)]+[f(n_,12) for n_ in ('trim_slope','trim_offset','trim_power','trim_chroma_weight','trim_saturation_gain','ms_weight')]
         bits=80
@@ -86,13 +96,13 @@ def gen_block(level, w, js):
         if ln>13: fl+=[f('saturation_vector_field%d'%i,8) for i in range(6)]; bits=152
         if ln>19: fl+=[f('hue_vector_field%d'%i,8) for i in range(6)]; bits=200
     elif level==9:
-        ln=pick(1,17); name='Level9'; fl=[('length',ln)]
+        ln=pick(1,17) if not (EXTREME and R.random()<0.3) else pick(0,2,16,18,33); name='Level9'; fl=[('length',ln)]
         if ln==1: fl.append(f('source_primary_index',8,R.randint(0,254))); bits=8
         else:
             fl.append(f('source_primary_index',8,255)); bits=136
             fl+=[f('source_primary_'+c+'_'+a,16,R.randint(1,65535)) for c in ('red','green','blue','white') for a in ('x','y')]
     elif level==10:
-        ln=pick(5,21); name='Level10'; fl=[('length',ln)]
+        ln=pick(5,21) if not (EXTREME and R.random()<0.3) else pick(4,6,20,22,0); name='Level10'; fl=[('length',ln)]
         idx=R.choice([i for i in range(256) if i not in (1,16,18,21,27,28,37,38,42,48,49)])
         fl+=[f('target_display_index',8,idx),f('target_max_pq',12),f('target_min_pq',12)]
         if ln==5: fl.append(f('target_primary_index',8,R.randint(0,254))); bits=40
